@@ -178,7 +178,18 @@ where
 		let mut amount_debited = 0;
 		t.num_inputs = lock_inputs.len();
 		for id in lock_inputs {
-			let mut coin = batch.get(&id.0, &id.1).unwrap();
+			let mut coin = batch.get(&id.0, &id.1)?;
+			// an input that is already reserved by another transaction (or that
+			// was spent or reverted in the meantime) must not be reserved again
+			match coin.status {
+				OutputStatus::Unspent | OutputStatus::Unconfirmed => {}
+				_ => {
+					return Err(Error::GenericError(format!(
+						"Input {} is no longer spendable (status: {}), can't lock",
+						coin.key_id, coin.status
+					)));
+				}
+			}
 			coin.tx_log_entry = Some(log_id);
 			amount_debited += coin.value;
 			batch.lock_output(&mut coin)?;
